@@ -187,8 +187,11 @@ def build_agent(spec, shared_cfg=None):
     algo, family = spec["algo"], spec.get("family", "vector")
     cls = algo_class(algo)
     seed_all(spec.get("seed", 0) * 1009 + spec.get("index", 0))
-    ncfg = shared_cfg if shared_cfg is not None else net_config_for(spec.get("netcfg", "partial"), family)
+    custom = spec.get("netcfg") == "custom"
+    ncfg = None if custom else (shared_cfg if shared_cfg is not None else net_config_for(spec.get("netcfg", "partial"), family))
     kw = dict(index=spec.get("index", 0), net_config=ncfg, batch_size=BATCH)
+    if custom:
+        kw.update(custom_networks(algo, family))
     if spec.get("hp", True):
         kw["hp_config"] = spec.get("_hp_obj") or hp_config_for(algo)
     if algo in SHARE_CAPABLE:
@@ -203,6 +206,34 @@ def build_agent(spec, shared_cfg=None):
         asp = [act_space(algo) for _ in AGENT_IDS]
         return cls(osp, asp, agent_ids=list(AGENT_IDS), **kw)
     return cls(obs_space(family), act_space(algo), **kw)
+
+
+# net_config kind "custom": plain torch networks wrapped by MakeEvolvable and passed as actor_network= / critic_network=
+# (agilerl/wrappers/make_evolvable.py keeps its constructor kwargs -- hidden_size, channel_size, layer-info dicts -- as
+# attributes and hands them out again through init_dict)
+CUSTOM_ALGOS = {"DQN": ("vector", "image"), "CQN": ("vector", "image"), "DDPG": ("vector",), "NeuralUCB": ("vector",)}
+
+
+def custom_networks(algo, family):
+    import torch.nn as nn
+    from agilerl.wrappers.make_evolvable import MakeEvolvable
+    assert family in CUSTOM_ALGOS.get(algo, ()), f"no custom-network configuration for {algo}/{family}"
+    lim = dict(min_hidden_layers=1, max_hidden_layers=3, min_mlp_nodes=4, max_mlp_nodes=64,
+               min_cnn_hidden_layers=1, max_cnn_hidden_layers=3, min_channel_size=2, max_channel_size=16)
+    nout = 2 if algo == "DDPG" else (1 if algo == "NeuralUCB" else 3)
+    if family == "image":
+        net = nn.Sequential(nn.Conv2d(1, 4, kernel_size=3, stride=1), nn.ReLU(), nn.Flatten(),
+                            nn.Linear(4 * 4 * 4, 8), nn.ReLU(), nn.Linear(8, nout))
+        actor = MakeEvolvable(net, torch.zeros(1, 1, 6, 6), **lim)
+    else:
+        net = nn.Sequential(nn.Linear(3, 8), nn.ReLU(), nn.Linear(8, 6), nn.ReLU(), nn.Linear(6, nout),
+                            *([nn.Tanh()] if algo == "DDPG" else []))
+        actor = MakeEvolvable(net, torch.zeros(1, 3), **lim)
+    out = {"actor_network": actor}
+    if algo == "DDPG":
+        cnet = nn.Sequential(nn.Linear(3 + 2, 8), nn.ReLU(), nn.Linear(8, 1))
+        out["critic_network"] = MakeEvolvable(cnet, torch.zeros(1, 3), secondary_input_tensor=torch.zeros(1, 2), **lim)
+    return out
 
 
 def unwrap(agent):
@@ -410,18 +441,23 @@ def _net_slots(prefix, obj):
         # only list objects that persist between two reads of init_dict are mutable state of the network (a list that
         # is re-created on every read cannot be shared; its id() may even be recycled)
         first, second = m.init_dict, m.init_dict          # both kept alive while they are compared
-        again = dict(_cfg_lists(second))
-        for path, lst in _cfg_lists(first):
+        wd = type(m).__name__ == "MakeEvolvable"
+        again = dict(_cfg_lists(second, dicts=wd))
+        for path, lst in _cfg_lists(first, dicts=wd):
             if again.get(path) is lst:
                 cfg.append((f"{tag}.init_dict.{path}", lst))
     return enc, head, hid, cfg, buf
 
 
-def _cfg_lists(d, path=""):
+def _cfg_lists(d, path="", dicts=False):
+    """mutable containers reachable from an init dict: lists, and (dicts=True: MakeEvolvable, whose init dict hands out
+    its own layer-info dictionaries) the nested dictionaries themselves"""
     out = []
     if isinstance(d, dict):
+        if dicts and path:
+            out.append((path.rstrip(".") + "{}", d))
         for k in d:
-            out += _cfg_lists(d[k], f"{path}{k}.")
+            out += _cfg_lists(d[k], f"{path}{k}.", dicts)
     elif isinstance(d, list):
         out.append((path.rstrip("."), d))
     return out
@@ -607,14 +643,52 @@ def structure(agent):
     for n in list(hps):
         v = hps[n]
         hps[n] = float(v) if isinstance(v, (int, float, np.integer, np.floating)) else str(v)
-    scalars = {}
-    for n, v in sorted(EvolvableAlgorithm.inspect_attributes(a).items()):
-        if n in ("index", "mut", "training"):
-            continue
-        if isinstance(v, (bool, int, float, str, np.integer, np.floating)) or v is None:
-            scalars[n] = v if isinstance(v, (bool, str)) or v is None else float(v)
+    scalars = plain_state(a)
+    if unwrap(agent) is not agent:
+        scalars.update({"wrapper." + k: v for k, v in plain_state(agent).items()})
     return {"nets": nets, "opts": opts, "hps": hps, "scalars": scalars, "index": int(a.index), "mut": a.mut if a.mut is None else str(a.mut),
             "books": {n: _jsonable(getattr(a, n)) for n in ("scores", "fitness", "steps")}}
+
+
+# plain (non-tensor, non-module) state of an agent.  Derived generically: EVERY attribute of the instance dictionary --
+# underscore-named ones included, copy_attributes skips those -- and every public attribute reported by
+# inspect_attributes whose value is a number / bool / string / None or a small container of such values.
+# Ignored (documented): identity and bookkeeping that legitimately differ or are slots already (index, mut, training,
+# scores/fitness/steps, registry), the wrapped agent / bound methods of wrappers, spaces and devices.
+PLAIN_IGNORE = {"_index", "index", "_mut", "mut", "training", "scores", "fitness", "steps", "registry", "agent",
+                "device", "accelerator", "observation_space", "action_space", "observation_spaces", "action_spaces",
+                "possible_observation_spaces", "possible_action_spaces", "net_config", "torch_compiler"}
+
+
+def _plain(v, depth=0):
+    if isinstance(v, (bool, str)) or v is None:
+        return True, v
+    if isinstance(v, (int, float, np.integer, np.floating)):
+        return True, float(v)
+    if depth < 2 and isinstance(v, (list, tuple)) and len(v) <= 16:
+        r = [_plain(x, depth + 1) for x in v]
+        if all(ok for ok, _ in r):
+            return True, [x for _, x in r]
+    if depth < 2 and isinstance(v, dict) and len(v) <= 16:
+        r = {str(k): _plain(x, depth + 1) for k, x in v.items()}
+        if all(ok for ok, _ in r.values()):
+            return True, {k: x for k, (_, x) in sorted(r.items())}
+    return False, None
+
+
+def plain_state(obj):
+    out = {}
+    items = dict(vars(obj))
+    if isinstance(obj, EvolvableAlgorithm):
+        for n, v in EvolvableAlgorithm.inspect_attributes(obj).items():
+            items.setdefault(n, v)
+    for n, v in sorted(items.items()):
+        if n in PLAIN_IGNORE or callable(v):
+            continue
+        ok, val = _plain(v)
+        if ok:
+            out[n] = val
+    return out
 
 
 def _jsonable(v):
